@@ -32,13 +32,8 @@ def ansOf (j : Json) : Option Ans :=
   | "listing" => some (.listing (natList j "ids"))
   | _ => Option.none
 
-/-- ids in the harness are taken modulo the number of peers it created (6) -/
-def normOp : Op → Op
-  | .block id d => .block (id % 6) d
-  | .query id => .query (id % 6)
-  | .dial id => .dial (id % 6)
-  | .secured id => .secured (id % 6)
-  | op => op
+/-- identity k is the same peer in every run of the harness (a fixed generated sequence) -/
+def normOp : Op → Op := id
 
 /-- every operation of the block list is atomic in the model, so a placement can only be lost to a
 placement — never to a look-up: the fresh block is in force after a concurrent look-up and
